@@ -29,6 +29,8 @@ def run(chk, repo):
         'C15.c (shared with C11.d) a failed gene lookup cannot make later valid lookups fail',
         'C15.d all three tools map the 1-based breakpoints to the same gene coordinates on both strands; location, id and ACCEPTER_POSITION use them',
         'C15.e attrs dictionaries are created per record',
+        'C15.g an intronic breakpoint is moved to the nearest exon boundary (the exon scans stop at the exon next to the position on both strands)',
+        'C15.h transcript / gene sequences of every additional transcript are fetched with its own chromosome',
     ]
     chk.not_decided = ['per-tool breakpoint conventions against the tool specifications', 'the fused sequence itself (apply_fusion)']
 
@@ -189,3 +191,67 @@ def run(chk, repo):
     chk.ob('C15.f', 'get_transcripts_with_position: start <= pos < end over the transcript location', gt.where, ok,
            f"containment test {[unparse(t) for t in tests]} with {b}: a breakpoint on the first (or last) genomic base of an isoform silently drops that isoform pair",
            key=gt.qual + '::half-open', fn=gt.qual)
+
+    # ------------------------------------------------------------------ g
+    chk.rule('C15.g', 'R-NEAREST: exon scans that move an intronic breakpoint select the NEAREST exon (scan direction x predicate monotonicity)', 4)
+    n_scan = 0
+    for q in ('gtf.TranscriptAnnotationModel:TranscriptAnnotationModel.get_upstream_exon_end',
+              'gtf.TranscriptAnnotationModel:TranscriptAnnotationModel.get_downstream_exon_start'):
+        fn = repo.func(q)
+        chk.uses(fn)
+        loops = sorted([l for l in walk_no_nested(fn.node) if isinstance(l, ast.For) and isinstance(l.target, ast.Name)], key=lambda l: l.lineno)
+        for li, lp in enumerate(loops):
+            it = unparse(lp.iter)
+            direction = 'asc' if it == 'self.exon' else 'desc' if it == 'reversed(self.exon)' else None
+            v = lp.target.id
+            # the single test that decides the selection: either `if Q: break` (select last before Q) or `if P: <assign>; break` (select first with P)
+            tests = [s_ for s_ in lp.body if isinstance(s_, ast.If) and any(isinstance(x, ast.Break) for x in s_.body)]
+            mono = None
+            if len(tests) == 1:
+                cp = G.cmp_parts(tests[0].test)
+                if cp:
+                    l_, op, r_ = cp
+                    if v in l_ and v not in r_:
+                        mono = 'up' if op in ('>', '>=') else 'down' if op in ('<', '<=') else None
+                    elif v in r_ and v not in l_:
+                        mono = 'down' if op in ('>', '>=') else 'up' if op in ('<', '<=') else None
+            n_scan += 1
+            ok = direction is not None and mono is not None and (direction, mono) in (('asc', 'up'), ('desc', 'down'))
+            strand = '+' if li == 0 else '-'
+            chk.ob('C15.g', f"{fn.name} ({strand} strand): scan {direction} over exons, stop test `{unparse(tests[0].test) if tests else None}` is false-then-true along the scan",
+                   repo.loc(fn, lp), ok,
+                   f"the scan runs {direction} and stops on a test that is {'true-then-false' if mono else 'not monotone / not found'} along it: it stops at the FIRST exon of "
+                   "the scan instead of the exon next to the breakpoint, so an intronic breakpoint in the 2nd or a later intron is moved across whole exons "
+                   "(the fusion transcript keeps / drops exons it should not)", key=f"{q}::nearest::{strand}", fn=fn.qual)
+
+    # ------------------------------------------------------------------ h
+    chk.rule('C15.h', 'R-LOCKSTEP: sequences of each (acceptor) transcript are fetched from that transcript\'s own chromosome', 2)
+    gq = 'cli.call_variant_peptide:VariantPeptideCaller.gather_data_for_call_variant'
+    gd = repo.func(gq)
+    chk.uses(gd)
+    lps = [l for l in walk_no_nested(gd.node) if isinstance(l, ast.For) and unparse(l.iter) == 'tx_ids' and isinstance(l.target, ast.Name)
+           and G.find_calls(l, 'get_transcript_sequence')]
+    if len(lps) != 1:
+        raise AnalysisError(f"anchor={gq}: per-transcript sequence loop not found")
+    lp = lps[0]
+    derived = {lp.target.id}
+    changed = True
+    assigns = [n for n in ast.walk(lp) if isinstance(n, ast.Assign) and len(n.targets) == 1 and isinstance(n.targets[0], ast.Name)]
+    while changed:
+        changed = False
+        for a in assigns:
+            if a.targets[0].id not in derived and any(isinstance(x, ast.Name) and x.id in derived for x in ast.walk(a.value)):
+                derived.add(a.targets[0].id)
+                changed = True
+    for nm in ('get_transcript_sequence', 'get_gene_sequence'):
+        cs = G.find_calls(lp, nm)
+        bad = []
+        for c in cs:
+            recv = G.root_name(c.func.value)
+            argnames = {x.id for a in c.args for x in ast.walk(a) if isinstance(x, ast.Name)} - {'ref', 'self'}
+            if recv not in derived or not argnames or not argnames <= derived:
+                bad.append(f"{repo.loc(gd, c)}: `{unparse(c)[:70]}` (not derived from `{lp.target.id}`: {sorted(({recv} | argnames) - derived)})")
+        chk.ob('C15.h', f"in `for {lp.target.id} in tx_ids` every {nm}() call uses a model and a chromosome derived from `{lp.target.id}`", repo.loc(gd, lp),
+               bool(cs) and not bad,
+               f"{bad or 'call not found'}: the sequence of an additional (fusion acceptor) transcript is cut from the chromosome of another transcript; for an "
+               "inter-chromosomal fusion the acceptor part of the fused transcript is unrelated sequence", key=f"{gq}::own-chrom::{nm}", fn=gd.qual)
